@@ -35,14 +35,29 @@ AX_FOLD = [
 ]
 _S, _sg, _b = z3.Const("S!c", T.SpaceS), z3.Const("sg!c", SigS), z3.Bool("b!c")
 _c1, _c2, _c3 = z3.Const("c1!c", M.OptLS.sort()), z3.Const("c2!c", M.OptLS.sort()), z3.Const("c3!c", M.OptLV.sort())
+# Attractor-cache vocabulary (opaque; meaning in DESIGN.md section 5, I-cache):
+#   Covers(N,S,sig,skipped,l): l are full states inside S and every attractor of N inside S that is inside no successor
+#                              recorded in sig contains a state of l (for skip nodes: the weaker clause of C05/C14)
+#   IsSDR(N,S,sig,skipped,l):  l is a system of distinct representatives of exactly those attractors
+#   SetsOf(N,S,l,t):           t[k] is the attractor of l[k] over all variables, in the same order
+Covers = z3.Function("Covers", T.Net, T.SpaceS, SigS, B, LSs, B)
+IsSDR = z3.Function("IsSDR", T.Net, T.SpaceS, SigS, B, LSs, B)
+SetsOf = z3.Function("SetsOf", T.Net, T.SpaceS, LSs, M.LV.sort(), B)
+_ll = z3.Const("l!cc", LSs)
 AX_CACHE = [
-    # each cached field is individually correct when present: forgetting the candidates keeps the rest consistent
-    z3.ForAll([_N, _S, _sg, _b, _c1, _c2, _c3], z3.Implies(CacheOK(_N, _S, _sg, _b, _c1, _c2, _c3),
-                                                          CacheOK(_N, _S, _sg, _b, M.OptLS.none().t, _c2, _c3)),
-              patterns=[CacheOK(_N, _S, _sg, _b, _c1, _c2, _c3)]),
-    # unknown caches are always consistent
-    z3.ForAll([_N, _S, _sg, _b], CacheOK(_N, _S, _sg, _b, M.OptLS.none().t, M.OptLS.none().t, M.OptLV.none().t),
-              patterns=[CacheOK(_N, _S, _sg, _b, M.OptLS.none().t, M.OptLS.none().t, M.OptLV.none().t)]),
+    # definition of CacheOK: every cached field that is present is correct for the current successor signature
+    z3.ForAll([_N, _S, _sg, _b, _c1, _c2, _c3], CacheOK(_N, _S, _sg, _b, _c1, _c2, _c3) == z3.And(
+        z3.Or(M.OptLS.is_none(_c1), Covers(_N, _S, _sg, _b, M.OptLS.val(_c1))),
+        z3.Or(M.OptLS.is_none(_c2), IsSDR(_N, _S, _sg, _b, M.OptLS.val(_c2))),
+        z3.Or(M.OptLV.is_none(_c3), z3.And(z3.Not(M.OptLS.is_none(_c2)), SetsOf(_N, _S, M.OptLS.val(_c2), M.OptLV.val(_c3))))),
+        patterns=[CacheOK(_N, _S, _sg, _b, _c1, _c2, _c3)]),
+    # consequences of the meaning (definitional; the attractor facts behind them are L3 / L8, proved in Lean):
+    z3.ForAll([_N, _S, _sg, _b, _ll], z3.Implies(z3.And(Covers(_N, _S, _sg, _b, _ll), M.LS.len(_ll) == 0), IsSDR(_N, _S, _sg, _b, _ll)),
+              patterns=[Covers(_N, _S, _sg, _b, _ll)]),
+    z3.ForAll([_N, _S, _b, _ll], z3.Implies(z3.And(Covers(_N, _S, nosucc, _b, _ll), M.LS.len(_ll) == 1, T.IsTrap(_N, _S)), IsSDR(_N, _S, nosucc, _b, _ll)),
+              patterns=[Covers(_N, _S, nosucc, _b, _ll)]),
+    z3.ForAll([_N, _S, _sg, _b, _ll], z3.Implies(IsSDR(_N, _S, _sg, _b, _ll), Covers(_N, _S, _sg, _b, _ll)),
+              patterns=[IsSDR(_N, _S, _sg, _b, _ll)]),
 ]
 
 
@@ -89,6 +104,8 @@ def inv(v, exempt=None, cache=True):
                                              z3.And(v.expanded[i], SkipOK(N, v.space[i], v.succsig[i]),
                                                     z3.Not(T.MinTrapSet(N, v.space[i])[v.space[i]]))))),
         ("I-sig.empty", z3.ForAll([i], z3.Implies(z3.And(valid(v, i), v.succsig[i] == nosucc), z3.ForAll([j], z3.Not(v.edge[i][j]))))),
+        ("I-sig.nonempty", z3.ForAll([i], z3.Implies(z3.And(valid(v, i), v.succsig[i] != nosucc),
+                                                     z3.Exists([j], z3.And(valid(v, j), v.edge[i][j]))))),
         ("I-depth.nonneg", z3.ForAll([i], z3.Implies(valid(v, i), v.depth[i] >= 0))),
         ("I-depth.edges", z3.ForAll([i, j], z3.Implies(v.edge[i][j], v.depth[j] >= v.depth[i] + 1))),
         ("I-pn", T.Encodes(v.pn, N, z3.K(Name, z3.IntVal(-1)))),
